@@ -180,12 +180,17 @@ CHECKS = {
              'satisfying the decidable obligation TableOK the parentheses the printer inserts are sufficient for CPython\'s grammar levels '
              '(Gram) and erasing them returns the input; TableOK is re-proved by decide on the table regenerated from the running '
              'ExpressionPrinter on every run; tokens the tokenizer would glue are separated (generated spacing lists, decide); integer '
-             'literals denote their value in decimal or hex; every statement class has a dispatch entry. Tie: the Lean printer model '
+             'literals denote their value in decimal or hex; every statement class has a dispatch entry. Statement layout (T02.4/T02.5, mutual '
+             'induction over the statement tree): the printer state machine (newline / indent / end_statement with rstrip, elif surgery) '
+             'over the statement printer token stream yields exactly the specified layout emitModule - one line per clause, suites inline '
+             '(single ; between simple statements) or as a block one level deeper, no empty line or trailing separator - and the printed '
+             'characters are those layout tokens; hypotheses okL / textOK are decidable and evaluated on every module of the correspondence; '
+             'the layout specification is validated against CPython tokenize (depth and ; count of every logical line). Tie: the Lean printer model '
              '(tokens, expressions, statements, layout) is compared byte for byte with ModulePrinter on an exhaustive slot x child-class '
              'enumeration, a pinned corpus and random trees; the grammar spec Gram is validated against ast.parse under perturbed tables; '
              'strict round trip on the real unparse / minify(all off) is the failing-input search.',
-        note='Proved: expression parenthesisation, token separation, integer spelling. Modelled and tied by correspondence only: statement '
-             'slots, suite layout, float/complex post-processing. Assumed: repr of str/bytes/float, ast.parse. f-strings: text taken from '
+        note='Proved: expression parenthesisation, token separation, integer spelling, statement layout (block structure). Modelled and tied by correspondence only: statement '
+             'slots (which expression printer a header uses), float/complex post-processing. Assumed: repr of str/bytes/float, ast.parse. f-strings: text taken from '
              'the implementation inside the model; covered by the real-code oracle only. Python <= 3.7 node classes not modelled; other '
              'interpreters (3.8-3.11, 3.13) only through the oracle in the thorough tier.',
         technique='Lean 4 proof (mutual structural induction + decision table by decide on generated tables) + model/implementation correspondence + spec validation',
